@@ -64,6 +64,34 @@ def _lake_lock():
     return f
 
 
+def _failed_lemmas(lean_dir, log):
+    """When the build breaks inside a Lemmas/Model file (the source-tie proofs live there), name the theorem /
+    lemma around each `error:` location, so that the replay says which statement no longer checks."""
+    out = []
+    try:
+        for m in re.finditer(r"error: (?:\./)?(TraitsVerif/[\w/]+\.lean):(\d+):\d+", log):
+            path, line = m.group(1), int(m.group(2))
+            name = None
+            try:
+                src = open(os.path.join(lean_dir, path)).read().split("\n")
+                for i in range(min(line, len(src)) - 1, -1, -1):
+                    mm = re.match(r"\s*(?:private\s+|protected\s+)?(?:theorem|lemma|def|example|instance)\s+([\w.'«»]+)?", src[i])
+                    if mm:
+                        name = mm.group(1) or "example"
+                        break
+            except OSError:
+                pass
+            item = "<build>: %s%s (%s:%d)" % (path[len("TraitsVerif/"):-5].replace("/", "."), ("." + name) if name else "", path, line)
+            if item not in out:
+                out.append(item)
+            if len(out) >= 12:
+                break
+    except Exception:
+        return []
+    return out
+
+
+
 def run_translators(names, scratch):
     """Regenerate Generated/*.lean from the scratch copy.  Returns
     (dict name -> new text, list of names whose text differs from the committed)."""
@@ -162,7 +190,7 @@ def prove(pm, generated, changed, tier, scratch):
     res["theorems"] = thms
     if not build_ok:
         # find which theorems are named in the errors
-        res["failed"] = [t for t in thms if t.split(".")[-1] in res["build_log"]] or ["<build>"]
+        res["failed"] = [t for t in thms if t.split(".")[-1] in res["build_log"]] or _failed_lemmas(lean_dir, p.stdout + p.stderr) or ["<build>"]
         return res
     audit = "\n".join("import " + m for m in pm.PROPS_MODULES) + "\n" + \
         "\n".join("#print axioms %s" % t for t in thms) + "\n"
